@@ -170,11 +170,36 @@ theorem enqueue_inv (e : EventId) : Pres Inv (enqueue e) := by
     show x.tid < c.nextTid + 1
     have := g x hx; omega
 
+theorem enqueueActivation_inv : Pres Inv enqueueActivation := by
+  intro c h
+  obtain ⟨a, b, d, f, g⟩ := h
+  simp only [enqueueActivation, EM.modify]
+  refine ⟨a, ?_, ?_, ?_, ?_⟩
+  · rw [List.map_append, List.pairwise_append]
+    refine ⟨b, by simp, ?_⟩
+    intro x hx y hy
+    simp only [List.mem_map] at hx
+    obtain ⟨q, hq, rfl⟩ := hx
+    simp at hy; subst hy
+    exact f q hq
+  · intro x hx q hq
+    rcases List.mem_append.mp hq with hq | hq
+    · exact d x hx q hq
+    · simp at hq; subst hq; exact g x hx
+  · intro q hq
+    show q.tid < c.nextTid + 1
+    rcases List.mem_append.mp hq with hq | hq
+    · have := f q hq; omega
+    · simp at hq; subst hq; simp
+  · intro x hx
+    show x.tid < c.nextTid + 1
+    have := g x hx; omega
+
 theorem start_inv : Pres Inv start := by
   unfold start
   refine Pres.bind Pres.get fun cfg => ?_
   split
-  · exact enqueue_inv _
+  · exact enqueueActivation_inv
   · exact Pres.pure _
 
 theorem process_inv (m : Machine) (kind : Kind) (fuel : Nat) :
